@@ -21,6 +21,7 @@ import (
 	"runtime"
 	"strings"
 	"sync"
+	"sync/atomic"
 	"time"
 
 	"github.com/gobwas/httphead"
@@ -895,11 +896,19 @@ func subSessions() mon.Sub {
 				}(i)
 			}
 			go func() { wg.Wait(); close(done) }()
+			// (a round of sessions takes seconds; once one round of this process got stuck - which does not happen on
+			// a healthy tree - the later ones are given 40 s instead of 240 s, so that a sick tree is reported in
+			// minutes, by the rounds that do finish, rather than in half an hour)
+			patience := 240 * time.Second
+			if stuckRounds.Load() > 0 {
+				patience = 40 * time.Second
+			}
 			select {
 			case <-done:
-			case <-time.After(240 * time.Second):
+			case <-time.After(patience):
+				stuckRounds.Add(1)
 				runtime.GOMAXPROCS(old)
-				c.Inconclusive(fmt.Sprintf("sessions stuck for 240 s (n=%d procs=%d mix=%d)", n, gp, mix))
+				c.Inconclusive(fmt.Sprintf("sessions stuck for %v (n=%d procs=%d mix=%d)", patience, n, gp, mix))
 				return
 			}
 			runtime.GOMAXPROCS(old)
@@ -972,6 +981,8 @@ func firstN(s []string, n int) []string {
 	}
 	return s
 }
+
+var stuckRounds atomic.Int64
 
 func main() {
 	mon.Main(&mon.Spec{
